@@ -68,6 +68,12 @@ func TestC07(t *testing.T) {
 				s.Violation(Replay{Check: "rawstdin", Sig: "cli-abnormal-raw-stdin", Source: rp.Source, Stdin: rp.Stdin, Note: rp.Note, Observed: fmt.Sprintf("status=%d stderr=%q", cr.Status, clip(cr.Stderr, 400))})
 			}
 		})
+		c.OnReplay("interactive", func(s *Sub, rp *Replay) {
+			out, status, timedOut := run.CLIMerged(c.Bin, nil, rp.Source, c.CLIDir(), 60*time.Second)
+			if timedOut || status != 0 || strings.Contains(out, "panic:") || strings.Contains(out, "fatal error:") {
+				s.Violation(Replay{Check: "interactive", Sig: "interactive-abnormal", Source: rp.Source, Note: rp.Note, Observed: fmt.Sprintf("status=%d output=%q", status, clip(out, 700))})
+			}
+		})
 		c.ReplayTier()
 		P := bn.KwPrint
 
@@ -76,11 +82,101 @@ func TestC07(t *testing.T) {
 			cr := c.CLIScript(bn.KwFun+" r(n) { "+bn.KwReturn+" r(n + 1); }\nr(0);\n", "", 120*time.Second)
 			return cr.Status != 0 && cr.Status != 70 && strings.Contains(cr.Stderr, "stack overflow")
 		})
-		c.Probe("self-containing-print", func() bool {
-			cr := c.CLIScript(bn.KwVar+" a = [1];\na[0] = a;\n"+P+" a;\n", "", 120*time.Second)
-			return cr.Status != 0 && cr.Status != 70 && strings.Contains(cr.Stderr, "stack overflow")
-		})
 
+		// values that contain themselves, built in every way and then printed, listed, compared, measured, copied:
+		// whatever has a finite answer gives it, a print of the value itself is a runtime error (K13, fixed), nothing
+		// ends abnormally
+		c.Sub("self-containing-values", func(s *Sub) {
+			V, F, R := bn.KwVar, bn.KwFun, bn.KwReturn
+			builds := []string{
+				V + " a = [1, 2];\na[0] = a;\n",
+				V + " a = {k: 1};\na.me = a;\n",
+				V + " a = [1];\na[0] = [a];\n",
+				V + " a = [1];\n" + V + " b = [a];\na[0] = b;\n",
+				V + " a = {k: 1};\na.list = [a];\n",
+				V + " a = [{}];\na[0].up = a;\n",
+				V + " a = [1];\n" + V + " b = {p: a};\n" + V + " c3 = [b];\na[0] = c3;\n",
+				V + " a = [0, 0];\na[0] = a;\na[1] = a;\n",
+				F + " tie(x) { x[0] = x; " + R + " x; }\n" + V + " a = tie([1, 2]);\n",
+				V + " a = [1];\na = " + bn.BPush + "(a, a);\na[1][0] = a;\n",
+				V + " a = {k: 1};\n" + F + " hold() { " + R + " a; }\na.f = hold;\na.g = hold();\n",
+				// shared but finite
+				V + " sh = [7];\n" + V + " a = [sh, sh, {p: sh}];\n",
+				// a cycle that is cut again
+				V + " a = [1, 2];\na[0] = a;\na[0] = 5;\n",
+				V + " a = {k: 1};\na.me = a;\n" + bn.BDelKey + "(a, \"me\");\n",
+			}
+			uses := []string{
+				P + " a;\n", P + " [a];\n", P + " {w: a};\n", P + " [1, [2, [a]]];\n", P + " " + bn.BLen + "(a);\n", P + " a == a;\n", P + " a[0];\n", P + " a[0][0];\n", P + " a.me.me.k;\n", P + " a.k;\n",
+				P + " " + bn.BKeys + "(a);\n", P + " " + bn.BValues + "(a);\n", P + " " + bn.BPush + "(a, 3);\n", P + " " + bn.BLen + "(" + bn.BPush + "(a, a));\n", P + " " + bn.BRemove + "(a, 0);\n",
+				F + " show(x) { " + P + " x; }\nshow(a);\n", F + " give() { " + R + " a; }\n" + P + " give();\n", P + " \"\" + a;\n", P + " !a;\n", P + " a " + bn.KwOr + " 1;\n", P + " " + bn.BMax + "(a);\n",
+				V + " copy = a;\n" + P + " copy == a;\n" + P + " copy;\n", bn.KwIf + " (a) " + P + " \"truthy\";\n", bn.KwFor + " (" + V + " i = 0; i < 2; i = i + 1) { " + P + " a; }\n", P + "\n  a;\n",
+			}
+			var k int64
+			for _, b := range builds {
+				for _, u := range uses {
+					k++
+					if !c.Mine(k) {
+						continue
+					}
+					c.c07Program(s, "self-containing-values", b+P+" \"built\";\n"+u+P+" \"end\";\n", "", true, true, "self-containing")
+				}
+			}
+			c.Ev.MarkExhaustive(fmt.Sprintf("%d ways of building a value that contains itself (or shares, or no longer contains itself) x %d uses", len(builds), len(uses)))
+		})
+		// the interactive mode is input too: lines that are blank, that hold one stray character, one operator, one
+		// keyword or built-in name alone, an open string or comment, a string ending in a backslash — each between
+		// ordinary lines and as the unterminated last line.  No line ends the process abnormally.
+		c.Sub("interactive-lines", func(s *Sub) {
+			atoms := []string{" ", "  ", "\t", " \t ", "\r", " \r", "\v", "\f", "\u00a0", "\u3000", "\ufeff", ":", ":help", ": x", ";", ";;", "{", "}", "{}", "(", ")", "()", "[", "]", "[]", "\"", "\"\"", "\"\\", "\"\\\"", P + " \"ক\\", P + " \"a\\\\b\";", "\\", "\\n", "/*", "*/", "/* x */", "//", "// x", "/", "#", "@", "'", "'a'", ".", "..", "1.", ".5", "1..2", "1.2.3", "-", "--", "--1;", "1--1;", "---1;", "+", "++", "1++;", "=", "==", "===", "!", "!!", "!=", "&", "&&", "|", "||", "*", "**", "***", "<", "<<", "<<<", ">", ">>", ">>>", "<=", "=>", "=<", "?", "`", "~", "~~", "^", "%", "$", ",", ",,", "_", "__;", "0x1F;", "1e3;", "1_000;", "0b1;", "'", "\u0964", "\u09f3", "\U0001f600", "\u200d", "\u0300",
+				bn.KwVar, bn.KwVar + " ;", bn.KwFun, bn.KwFun + " ()", bn.KwIf, bn.KwElse, bn.KwWhile, bn.KwFor, bn.KwFor + " (;;", bn.KwPrint, bn.KwReturn, bn.KwReturn + ";", bn.KwBreak, bn.KwContinue, bn.KwTrue, bn.KwFalse, "nil", bn.KwAnd, bn.KwOr, bn.BLen, bn.BLen + "(", bn.BInput, bn.BInput + "(", bn.BClock + "()", bn.BMax + "()", bn.BPush + "(1)"}
+			var k int64
+			const per = 12
+			for from := 0; from < len(atoms); from += per {
+				k++
+				if !c.Mine(k) {
+					continue
+				}
+				part := atoms[from:min(from+per, len(atoms))]
+				var lines []string
+				for i, a := range part {
+					lines = append(lines, a, fmt.Sprintf("%d + 1000;", i))
+				}
+				for _, finalNL := range []bool{true, false} {
+					ls := lines
+					if !finalNL {
+						ls = lines[:len(lines)-1] // the last atom is the unterminated last line
+					}
+					in := strings.Join(ls, "\n")
+					if finalNL {
+						in += "\n"
+					}
+					out, status, timedOut := run.CLIMerged(c.Bin, nil, in, c.CLIDir(), 60*time.Second)
+					c.Ev.CLICross++
+					c.Ev.EnumCase("interactive-lines", true, func() string { return fmt.Sprintf("finalNL=%v: %q", finalNL, ls) }, "interactive")
+					bad := ""
+					switch {
+					case timedOut:
+						bad = "the session did not end within 60 s"
+					case strings.Contains(out, "panic:") || strings.Contains(out, "fatal error:") || strings.Contains(out, "goroutine "):
+						bad = "the process ended with a Go panic"
+					case status != 0:
+						bad = fmt.Sprintf("the session ended with status %d", status)
+					default:
+						for i := range part {
+							if 2*i+1 < len(ls) && !strings.Contains(out, fmt.Sprintf(">> %d\n", i+1000)) {
+								bad = fmt.Sprintf("the ordinary line after %q was not answered", part[i])
+								break
+							}
+						}
+					}
+					if bad != "" {
+						s.Violation(Replay{Check: "interactive", Sig: "interactive-abnormal", Source: in, Note: bad, Observed: fmt.Sprintf("status=%d output=%q", status, clip(out, 700))})
+					}
+				}
+			}
+			c.Ev.MarkExhaustive(fmt.Sprintf("%d hostile one-atom lines, each between ordinary lines and as the unterminated last line of a session", len(atoms)))
+		})
 		c.Sub("operator-matrix", func(s *Sub) {
 			var k int64
 			for _, op := range bn.BinOpList {
@@ -138,9 +234,6 @@ func TestC07(t *testing.T) {
 							continue
 						}
 						src := c07Prelude + fmt.Sprintf(f, v, i) + "\n" + P + " \"end\";\n"
-						if strings.Contains(f, "= %[1]s;") && (v == "arr" || v == "obj") {
-							continue // would build a self-containing value (open finding K13 when printed; not printed here, but kept out by construction)
-						}
 						c.c07Program(s, "access-matrix", src, "in1\n", true, true, "matrix-access")
 					}
 				}
@@ -288,7 +381,7 @@ func TestC07(t *testing.T) {
 			n = 40000
 		}
 		c.Rapid("rand-wild-programs", n, func(rt *rapid.T, s *Sub) {
-			g := &synGen{rt: rt, scalarStores: true}
+			g := &synGen{rt: rt, scalarStores: rapid.Bool().Draw(rt, "scalarStores")} // otherwise containers are stored into containers, themselves included
 			prog := g.program(rapid.IntRange(1, 4).Draw(rt, "depth"), 6)
 			src := c07Prelude + bn.ProgramText(prog, bn.Minimal)
 			c.c07Program(s, "rand-wild-programs", src, "in1\nin2\nin3\n", true, false, "wild")
